@@ -13,6 +13,8 @@ step) is used three ways:
         everything PullModes / PullActiveMode delivered.  ElectricTrace.tla evaluates the clauses on
         every line.  Only a clause false on a logged line is a violation.
 """
+import os
+
 import vf
 
 IDS3 = '{"a", "b", "c"}'
@@ -27,7 +29,8 @@ def _consts(ids, maxnow, dev="{}"):
 
 def model_check(ctx, thorough):
     ids, maxnow = (IDS4, 3) if thorough else (IDS3, 1)
-    ctx.mc("Electric", "ElectricMC.cfg", consts=_consts(ids, maxnow), workers=vf.NCPU, timeout=1800, deadlock=False)
+    ctx.mc("Electric", "ElectricMC.cfg", consts=_consts(ids, maxnow), workers=vf.NCPU if thorough else 4, timeout=1800,
+           deadlock=False)
     # the invariants have teeth on the model: with the code's deviations switched on TLC must find the
     # state invariant / step clause failing (this run says nothing about the code)
     shown = {}
@@ -42,7 +45,8 @@ def model_check(ctx, thorough):
 
 
 def gen_cases(ctx, thorough):
-    progs = []
+    """Runs the generators; the printed sequences go straight to progs.ndjson (they can be ~10^6)."""
+    import json
     plans = [("ElectricGenExh.cfg", {"Depth": 5 if thorough else 4, "NRandom": 0, "WalkLen": 0,
                                      "AddIds": '{"a", "b"}', "MaxGen": 1, "MaxModes": 4})]
     if thorough:
@@ -53,15 +57,23 @@ def gen_cases(ctx, thorough):
                                           "WalkLen": 10 if thorough else 6,
                                           "AddIds": IDS4 if thorough else IDS3, "MaxGen": 9, "MaxModes": 4}))
     counts = []
-    for cfg, consts in plans:
-        g = ctx.tlc("ElectricGen", cfg, consts=consts, workers=4, timeout=1800, deadlock=False)
-        cs = g.cases()
-        if len(cs) < 100:
-            raise vf.Inconclusive("Gen %s produced only %d sequences\n%s" % (cfg, len(cs), g.out[-2000:]))
-        counts.append({"cfg": cfg, "consts": consts, "sequences": len(cs)})
-        progs += cs
+    total = 0
+    cpath = ctx.path("progs.ndjson")
+    with open(cpath, "w") as f:
+        for cfg, consts in plans:
+            g = ctx.tlc("ElectricGen", cfg, consts=consts, workers=4, timeout=1800, deadlock=False)
+            n = 0
+            for line in g.out.splitlines():
+                if line.startswith('"CASE '):
+                    f.write(json.loads(line)[5:] + "\n")
+                    n += 1
+            if n < 100:
+                raise vf.Inconclusive("Gen %s produced only %d sequences\n%s" % (cfg, n, g.out[-2000:]))
+            counts.append({"cfg": cfg, "consts": consts, "sequences": n})
+            total += n
+            del g
     ctx.cov["generated"] = counts
-    return progs
+    return cpath, total
 
 
 def op_class(op):
@@ -79,36 +91,72 @@ NAMES = {"Create": "CreateMode", "Add": "AddMode", "Update": "UpdateMode", "Dele
          "SetActive": "SetActiveMode", "Change": "ChangeActiveMode", "Clear": "ClearActiveMode"}
 
 
-def trace_check(ctx, obs_path, label):
-    obs = ctx.read_ndjson(obs_path)
-    tr = ctx.tlc("ElectricTrace", "ElectricTrace.cfg", workers=1, files={"obs.ndjson": obs_path}, timeout=3000)
-    if not any(l.startswith('"CHECKED %d"' % len(obs)) for l in tr.out.splitlines()):
-        raise vf.Inconclusive("trace check (%s) did not cover all %d observations:\n%s" % (label, len(obs), tr.out[-3000:]))
-    ctx.count(len(obs))
-    for b in tr.cases("BAD "):
-        o = obs[b["line"] - 1]
-        for clause in b["fails"]:
-            if o["kind"] == "step":
-                sig = "C19/%s/%s/%s/%s" % (o["api"], NAMES.get(o["op"]["op"], o["op"]["op"]), clause, op_class(o["op"]))
-                what = ("step %d of sequence %d through the %s: clause '%s' of C19 false on what the real code did"
-                        % (o["step"], o["prog"], "Model API" if o["api"] == "model" else "gRPC servers", clause))
-            else:
-                sig = "C19/concurrent/%s/%s" % (o["kind"], clause)
-                what = ("run %d round %d of the concurrent part (%s line): clause '%s' of C19 false"
-                        % (o["run"], o["round"], o["kind"], clause))
-            ctx.violation(sig, what, o)
+def trace_check(ctx, obs_path, label, each):
+    """TLC evaluates ElectricTrace.tla on obs_path; the observations are then streamed once (they can be
+    millions): violations / notes are attached to the lines TLC flagged, each(o) sees every observation."""
+    import json
+    CHUNK = 400000   # observations per TLC run (bounds the memory of the JSON-reading JVM)
+    bad, noted, n = {}, {}, 0
+    with open(obs_path) as f:
+        part, rows = 0, []
+
+        def flush():
+            nonlocal part, rows, n
+            if not rows:
+                return
+            part += 1
+            cp = ctx.path("%s-part%d.ndjson" % (label, part))
+            with open(cp, "w") as g:
+                g.writelines(rows)
+            tr = ctx.tlc("ElectricTrace", "ElectricTrace.cfg", workers=1, files={"obs.ndjson": cp}, timeout=3000)
+            if not any(l.startswith('"CHECKED %d"' % len(rows)) for l in tr.out.splitlines()):
+                raise vf.Inconclusive("trace check (%s, part %d) did not cover all %d observations:\n%s"
+                                      % (label, part, len(rows), tr.out[-3000:]))
+            for b in tr.cases("BAD "):
+                bad[n + b["line"]] = b["fails"]
+            for b in tr.cases("NOTE "):
+                noted[n + b["line"]] = b["notes"]
+            n += len(rows)
+            rows = []
+            for junk in (cp, os.path.join(tr.dir, "obs.ndjson")):
+                if os.path.exists(junk):
+                    os.remove(junk)
+
+        for line in f:
+            if line.strip():
+                rows.append(line)
+                if len(rows) >= CHUNK:
+                    flush()
+        flush()
+    ctx.count(n)
     notes = {}
-    for b in tr.cases("NOTE "):
-        o = obs[b["line"] - 1]
-        for n in b["notes"]:
-            k = "%s/%s/%s" % (o.get("api", "concurrent"), NAMES.get(o.get("op", {}).get("op"), o["kind"]), n)
-            if k not in notes:
-                notes[k] = {"count": 0, "example": o}
-            notes[k]["count"] += 1
+    k = 0
+    with open(obs_path) as f:
+        for line in f:
+            if not line.strip():
+                continue
+            k += 1
+            o = json.loads(line)
+            for clause in bad.get(k, ()):
+                if o["kind"] == "step":
+                    sig = "C19/%s/%s/%s/%s" % (o["api"], NAMES.get(o["op"]["op"], o["op"]["op"]), clause, op_class(o["op"]))
+                    what = ("step %d of sequence %d through the %s: clause '%s' of C19 false on what the real code did"
+                            % (o["step"], o["prog"], "Model API" if o["api"] == "model" else "gRPC servers", clause))
+                else:
+                    sig = "C19/concurrent/%s/%s" % (o["kind"], clause)
+                    what = ("run %d round %d of the concurrent part (%s line): clause '%s' of C19 false"
+                            % (o["run"], o["round"], o["kind"], clause))
+                ctx.violation(sig, what, o)
+            for nt in noted.get(k, ()):
+                key = "%s/%s/%s" % (o.get("api", "concurrent"), NAMES.get(o.get("op", {}).get("op"), o["kind"]), nt)
+                if key not in notes:
+                    notes[key] = {"count": 0, "example": o}
+                notes[key]["count"] += 1
+            each(k, n, o)
     if notes:
         ctx.cov["notes"].append({"part": label,
                                  "documented_behaviour_outside_the_property_text_not_met (no verdict)": notes})
-    return obs
+    return n
 
 
 def run(ctx):
@@ -116,8 +164,7 @@ def run(ctx):
     model_check(ctx, thorough)
 
     # ---- sequential replays
-    progs = gen_cases(ctx, thorough)
-    cpath = ctx.write_ndjson("progs.ndjson", progs)
+    cpath, nprogs = gen_cases(ctx, thorough)
     obs_path = ctx.path("obs-seq.ndjson")
     p = ctx.run_harness(["seq", "-cases", cpath, "-out", obs_path], timeout=3000, cmd="electric", check=False)
     if p.crash:
@@ -125,15 +172,17 @@ def run(ctx):
         return
     if p.returncode != 0:
         raise vf.Inconclusive("harness electric seq failed rc=%d:\n%s" % (p.returncode, p.stdout[-3000:]))
-    obs = trace_check(ctx, obs_path, "sequential")
-    ctx.cov["traces_validated_against_impl"] += 2 * len(progs)
-    ctx.cov["steps_validated"] = len(obs)
-    for o in obs:
+
+    def each_step(k, n, o):
         if o["err"] != "OK" or o["post"] != o["pre"]:
             ctx.distinct((o["api"], o["pre"]["modes"], o["pre"]["active"], o["changed"],
-                          {k: v for k, v in o["op"].items() if k != "dt"}, o["now"] - o["pre"]["active"]["start"]))
-    for o in obs[:1] + obs[len(obs) // 2: len(obs) // 2 + 2]:
-        ctx.sample(o)
+                          {f: v for f, v in o["op"].items() if f != "dt"}, o["now"] - o["pre"]["active"]["start"]))
+        if k in (1, n // 2, n // 2 + 1):
+            ctx.sample(o)
+
+    nobs = trace_check(ctx, obs_path, "sequential", each_step)
+    ctx.cov["traces_validated_against_impl"] += 2 * nprogs
+    ctx.cov["steps_validated"] = nobs
 
     # ---- concurrent part
     cobs_path = ctx.path("obs-conc.ndjson")
@@ -145,24 +194,31 @@ def run(ctx):
         return
     if p.returncode != 0:
         raise vf.Inconclusive("harness electric conc failed rc=%d:\n%s" % (p.returncode, p.stdout[-3000:]))
-    cobs = trace_check(ctx, cobs_path, "concurrent")
-    q = [o for o in cobs if o["kind"] == "quiesce"]
-    undrained = sum(1 for o in q if not o["drained"])
-    if undrained > len(q) // 10:
-        raise vf.Inconclusive("the Pull streams did not catch up with the model at %d of %d quiescent points"
-                              % (undrained, len(q)))
-    ctx.cov["concurrent"] = {"runs": runs, "rounds_per_run": rounds, "ops_per_goroutine_per_round": nops,
-                             "quiescent_states_checked": len(q),
-                             "streamed_tables_checked": sum(1 for o in cobs if o["kind"] == "mstream"),
-                             "streamed_active_modes_checked": sum(1 for o in cobs if o["kind"] == "aevent"),
-                             "calls": sum(o["calls"] for o in q if o["round"] == rounds),
-                             "quiescent_points_with_streams_not_caught_up": undrained}
-    ctx.cov["traces_validated_against_impl"] += runs
-    for o in q:
+    c = {"quiesce": 0, "mstream": 0, "aevent": 0, "undrained": 0, "calls": 0}
+
+    def each_conc(k, n, o):
+        c[o["kind"]] += 1
+        if o["kind"] != "quiesce":
+            return
+        c["undrained"] += 0 if o["drained"] else 1
+        if o["round"] == rounds:
+            c["calls"] += o["calls"]
         if o["state"]["modes"]:
             ctx.distinct(("conc", o["state"]["modes"], o["state"]["active"]["id"], o["changed"]))
-    if q:
-        ctx.sample(q[len(q) // 2])
+        if c["quiesce"] == runs * rounds // 2:
+            ctx.sample(o)
+
+    trace_check(ctx, cobs_path, "concurrent", each_conc)
+    if c["undrained"] > c["quiesce"] // 10:
+        raise vf.Inconclusive("the Pull streams did not catch up with the model at %d of %d quiescent points"
+                              % (c["undrained"], c["quiesce"]))
+    ctx.cov["concurrent"] = {"runs": runs, "rounds_per_run": rounds, "ops_per_goroutine_per_round": nops,
+                             "quiescent_states_checked": c["quiesce"],
+                             "streamed_tables_checked": c["mstream"],
+                             "streamed_active_modes_checked": c["aevent"],
+                             "calls": c["calls"],
+                             "quiescent_points_with_streams_not_caught_up": c["undrained"]}
+    ctx.cov["traces_validated_against_impl"] += runs
     ctx.cov["rule"] = ("sequences printed by TLC from spec/ElectricGen.tla: (a) exhaustive, every sequence of <= Depth "
                        "operations over 2 AddMode ids + 1 CreateMode whose non-final operations succeed and change "
                        "the specification state, only the final step checked; (b) random walks, operation drawn "
@@ -173,9 +229,13 @@ def run(ctx):
                        "age of the active mode) resp. distinct (table, active id)")
     ctx.assumptions.append("mode titles, ids and times are abstracted to small alphabets; modes carry only id, title, "
                            "normal (description, voltage, segments are not exercised)")
-    ctx.assumptions.append("the concurrent part checks the state clauses of C19 at quiescent points and on the tables "
-                           "obtained by folding the PullModes stream (trusted only where the fold equals Modes() at the "
-                           "next quiescent point); free-running goroutines, no schedule control")
+    ctx.assumptions.append("the concurrent part checks the state clauses of C19 at quiescent points, on every table and "
+                           "active mode delivered to Model subscribers with backpressure (complete histories), and on "
+                           "what the server streams (which may drop or merge older changes) add up to at quiescence; "
+                           "free-running goroutines, no schedule control.  At each quiescent point the harness pushes a marker "
+                           "through the streams (adds and removes a mode 'zz-marker', sets the active mode to itself with a "
+                           "marker start time and back) to know that everything written before has been delivered; the "
+                           "markers are not part of the record and leave the state as it was (checked)")
 
 
 MANIFEST = {
